@@ -400,32 +400,35 @@ def idx_random(rng, kind, nops):
 
 
 def ns_random(rng, nops):
+    """names have 1..12 characters (identifier + 1); non-last names are removed, the string memory is small so that add()
+    packs / grows it by itself, and memPack / memRemax / reMax are called explicitly"""
     ops = []
+    ids = list(range(12))
     for _ in range(nops):
         r = rng.random()
-        if r < 0.40:
-            ops.append("add %d" % rng.randrange(0, 8))
-        elif r < 0.50:
-            ops.append("rmname %d" % rng.randrange(0, 8))
-        elif r < 0.58:
-            ops.append("rmnum %d" % rng.randrange(0, 8))
-        elif r < 0.64:
-            ops.append("rmkey %d" % rng.randrange(0, 8))
-        elif r < 0.74:
-            ops.append("rmnums " + " ".join(str(x) for x in rng.sample(range(0, 7), rng.randrange(0, 4))))
-        elif r < 0.80:
-            ops.append("rmkeys " + " ".join(str(x) for x in rng.sample(range(0, 7), rng.randrange(0, 4))))
-        elif r < 0.86:
-            ops.append("rmp " + " ".join(str(rng.choice([-1, 0, 2])) for _ in range(rng.randrange(0, 9))))
-        elif r < 0.88:
+        if r < 0.36:
+            ops.append("add %d" % rng.choice(ids))
+        elif r < 0.46:
+            ops.append("rmname %d" % rng.choice(ids))
+        elif r < 0.56:
+            ops.append("rmnum %d" % rng.choice([0, 0, 1, 2, rng.randrange(0, 12)]))
+        elif r < 0.61:
+            ops.append("rmkey %d" % rng.randrange(0, 12))
+        elif r < 0.67:
+            ops.append("rmnums " + " ".join(str(x) for x in rng.sample(range(0, 9), rng.randrange(0, 4))))
+        elif r < 0.71:
+            ops.append("rmkeys " + " ".join(str(x) for x in rng.sample(range(0, 9), rng.randrange(0, 4))))
+        elif r < 0.76:
+            ops.append("rmp " + " ".join(str(rng.choice([-1, 0, 2])) for _ in range(rng.randrange(0, 13))))
+        elif r < 0.77:
             ops.append("clear")
-        elif r < 0.92:
+        elif r < 0.81:
             ops.append("remax %d" % rng.randrange(0, 30))
-        elif r < 0.96:
-            ops.append("memremax %d" % rng.randrange(0, 80))
+        elif r < 0.87:
+            ops.append("memremax %d" % rng.choice([0, 0, rng.randrange(0, 120)]))
         else:
             ops.append("mempack")
-    return {"kind": "ns %d %d" % (rng.choice([1, 2, 3, 10]), rng.choice([1, 4, 8, 64])), "ops": ops, "family": "random"}
+    return {"kind": "ns %d %d" % (rng.choice([1, 2, 3, 10]), rng.choice([1, 2, 4, 8, 16, 64])), "ops": ops, "family": "random"}
 
 
 def ht_random(rng, nops):
@@ -535,6 +538,8 @@ PROBES = [
     ("da", ["appendn 1 2 3 4 5 6 7 8", "remax 2"]),
     ("vecr 4", ["sadd S0 0 1/1", "sadd S0 1 2/1", "sadd S0 2 3/1", "sadd S0 3 4/1", "srmrs S0 0 1"]),
     ("vecr 4", ["sadd S0 0 1/1", "sadd S0 1 2/1", "sadd S0 2 3/1", "srmrs S0 0 1"]),
+    ("ns 2 64", ["add 0", "add 1", "add 2", "add 9", "rmname 0", "mempack"]),
+    ("ns 2 4", ["add 0", "add 1", "add 2", "add 9", "rmname 0", "add 5", "add 6", "add 7", "add 8"]),
     ("ns 2 8", ["add 1", "add 2", "add 3", "add 4", "add 5", "rmnums 0 1 4"]),
     ("ns 2 8", ["add 1", "add 2", "add 3", "add 4", "rmnums 2 3"]),
     ("ns 2 8", ["add 1", "add 2", "add 3", "add 4", "rmnums 3 0 1"]),
@@ -573,9 +578,12 @@ def generate(ck):
     idx_al = ["addidx 0", "addidx 1", "addidx 2", "rm 0", "rm 1", "rmr 0 0", "rmr 0 1", "rmr 1 1", "clear", "addn 3 4"]
     cases += list(exhaustive("idx 3", idx_al, L, ([], ["addidx 5", "addidx 6", "addidx 7"])))
     cases += list(exhaustive("didx 1", idx_al + ["setmax 1", "copy"], L, ([], ["addidx 5", "addidx 6", "addidx 7"])))
-    ns_al = ["add 0", "add 1", "add 2", "rmname 0", "rmname 1", "rmnum 0", "rmnum 1", "rmkey 0", "rmkey 2", "rmnums 0 1", "rmnums 1 2",
+    ns_al = ["add 0", "add 1", "add 9", "rmname 0", "rmname 1", "rmnum 0", "rmnum 1", "rmkey 0", "rmkey 2", "rmnums 0 1", "rmnums 1 2",
              "rmkeys 0 1", "rmp -1 0", "rmp 0 -1 -1", "clear", "mempack", "memremax 0", "remax 0"]
     cases += list(exhaustive("ns 1 2", ns_al, L, ([], ["add 0", "add 1", "add 2"], ["add 3", "add 4", "rmname 3", "add 5"])))
+    # the string memory: names of different lengths, removal of a name that is not the last one, then packing
+    ns_mem = ["add 0", "add 5", "add 11", "rmname 0", "rmname 2", "rmnum 0", "rmnum 1", "mempack", "memremax 0", "add 3"]
+    cases += list(exhaustive("ns 2 1", ns_mem, L, (["add 0", "add 1", "add 2", "add 9"], ["add 7", "add 2", "add 4", "rmnum 0"])))
     ht_al = ["add 0 1", "add 1 2", "add 4 3", "add 7 4", "rm 0", "rm 1", "rm 4", "clear", "remax 2", "remax -1", "copy"]
     cases += list(exhaustive("ht 1", ht_al, L, ([], ["add 0 9", "add 1 8", "add 4 7"])))
     cases += list(exhaustive("ht 3", ht_al, L - 1, ([], ["add 0 9", "add 1 8", "add 4 7", "rm 1"])))
@@ -856,7 +864,7 @@ def main():
                       "double entries are small dyadic numbers (k/8, scaled by powers of two, at most a few multiplications by 3) so that the "
                       "floating-point operations are exact; Rational entries are arbitrary small fractions; epsilon = 1e-16 (Tolerances default)",
                       "NameSet growth test size()+1 > 0.7*max() is modelled exactly (10*(size+1) > 7*max); the double product differs from it only "
-                      "for max() in {90, 170, 180, ...}; the capacities reachable with the generated sequences (at most 8 names, reMax < 30) stay below 90",
+                      "for max() in {90, 170, 180, ...}; the capacities reachable with the generated sequences (at most 12 names, reMax < 30) stay below 90",
                       "SVSet / LPRowSet / LPColSet: the nonzero arena is not modelled (memRemax, memPack, xtend are checked to leave every "
                       "vector unchanged); copying a set without vectors is not compared",
                       "hash functions return non-negative values (DataHashTable indexes with hash % size)"]
